@@ -195,6 +195,13 @@ func c09Sched(nChecks int) func(c *sim.Case) {
 				}
 			}
 		}
+		// a callback of a login in flight that succeeds is a new interactive login; what comes after it is not judged
+		newLoginAt := 0
+		for i, t := range checks {
+			if shapes[i] == "mid-login" && t.resp != nil && t.resp.IsRedirect() && !w.IsLoginRedirect(t.resp) {
+				newLoginAt = t.doneAt
+			}
+		}
 		for i, t := range checks {
 			var late []string
 			ownWrite := false
@@ -212,6 +219,10 @@ func c09Sched(nChecks int) func(c *sim.Case) {
 			if shapes[i] == "mid-login" {
 				c.Class("mid-login-classified")
 				continue // a login that completes after the logout is a new interactive login
+			}
+			if newLoginAt > 0 && t.doneAt > newLoginAt {
+				c.Class("after-new-login")
+				continue // "... until a new interactive login completes": it has
 			}
 			if t.resp.OK && len(late) > 0 {
 				sig := "ok-after-logout:" + strings.Join(late, ",")
